@@ -21,7 +21,8 @@ RULE = ("k-medoids (cold, from centre indices, from (trajectory,frame) pairs, fr
         "estimator), 1..4 sweeps, random proposals recorded from the implementation's RandomState or explicit proposal lists "
         "(incl. frames outside the cluster, the current medoid, another medoid); every prefix of the sweeps is run from the same "
         "recorded history and the cost followed sweep by sweep; each seeded run is repeated. non-trivial := >= 2 clusters and at "
-        "least one accepted and one rejected proposal")
+        "least one accepted and one rejected proposal"
+        " Input-class axes, each forced in every run for every entry point (cluster_common.gen_axis_streams): memory layout of the data (column subset / strided rows / Fortran / transposed / negative stride / strided columns / read-only; same values, the metric is evaluated on a fresh contiguous copy); container of the warm-start centres (2-D array or md.Trajectory slice, Python list of frames, the .centers list of an earlier result) with argument-unchanged checks on the list and the earlier result; a metric that returns its result in one reused float64 buffer; estimator-reuse histories (constructed with other parameters, optional earlier fit on the same or other data, parameters changed through set_params / attribute assignment, second fit) compared with the function form called with the current parameters; tiny length scales (x 2^-14..2^-20) incl. k-medoids started from labels+distances without centre indices. Every run of the real code is bounded by a watchdog (10 s; key does-not-terminate).")
 SHARD = 60
 
 
@@ -40,9 +41,18 @@ def generate(rng, tier):
             base = rng.sample(c["X"], k)       # a quarter unit away from k distinct frames: each attracts its frame
             c["init_pts"] = [[p[0] + 0.25] + list(p[1:]) for p in base]
             c["nclu"], c["cutoff"] = k, None          # no further centres: a new centre frame could empty a supplied cluster
+            c["init"] = None
+            c.pop("scale_exp", None)
+            c.pop("init_form", None)
+            c.pop("hist", None)
+            c.pop("buf", None)
+            c["form"] = "func" if c.get("form") != "class" else "class"
             c["n_iters"] = rng.randint(1, 3)
             c["dtype"] = "float64"
             c["extras"] = False
+        cases.append(c)
+    for c in cc.gen_axis_streams(rng, ["kmedoids", "hybrid"], reps=1 if tier == "quick" else 8):
+        c["extras"] = True
         cases.append(c)
     return cases
 
@@ -52,7 +62,7 @@ run_impl = cc.run_case
 
 def oracle(c, out):
     if "err" in out:
-        return [("impl-error", "%s: %s" % (out["err"], out.get("msg")))]
+        return [cc.err_failure(out)]
     if c.get("init_pts") is not None:
         res = out["res"]
         fails = []
@@ -85,6 +95,7 @@ def oracle(c, out):
             fails.append(("k-changed", "hybrid k differs from k-centers k"))
     if out.get("chain_equal") is False:
         fails.append(("not-reproducible", "public kmedoids differs from the chained per-sweep run with the same seed"))
+    fails += cc.hist_failures(c, out)
     return fails
 
 
@@ -123,5 +134,6 @@ def tags(c, out):
     return t
 
 
-ESSENTIAL_TAGS = ["hybrid-non-frame-init", "multi-scale-data", "kmedoids", "hybrid", "start-cold", "start-centers", "start-state", "start-pairs", "explicit-proposals",
+ESSENTIAL_TAGS = ["tiny-scale", "tiny-scale-start-without-centres", "init-list", "init-result", "non-contiguous-data", "buffer-reusing-metric", "estimator-history-kmedoids",
+                  "estimator-history-hybrid", "hybrid-non-frame-init", "multi-scale-data", "kmedoids", "hybrid", "start-cold", "start-centers", "start-state", "start-pairs", "explicit-proposals",
                   "random-proposals", "some-sweep-lowered-cost", "some-sweep-changed-nothing", "estimator-form"]
